@@ -15,7 +15,7 @@ EXPECTED = os.path.join(os.path.dirname(os.path.abspath(__file__)), "facts", "C1
 META = dict(
     engine="E-CHAIN",
     technique="Lean 4 proof about the node-local caches as explicit state (LRU model, cache-coherence invariant lifted over arbitrary histories) + twin-node differential on the real PocketCoreApp (separate processes, RPC-like traffic, restarts, tiny LRU capacities) with a verified runtime monitor of the real ApplicationCache",
-    level_text="Kernel-checked: for the ApplicationCache (not keyed by height), coherence with the working store is an invariant of every history in which each non-prev read is against the working store; under it block execution observes exactly what a node without any cache observes, for all LRU capacities, restart schedules and interleavings of custom/RPC queries and CheckTx reads (caches_coherent, consensus_indep_offchain for the repaired query context, consensus_indep_offchain_asis_partial with exactly the excluded point). For the code as it is the property is proved FALSE: custom_query_poisons_appcache, eviction_poisons_appcache, deleted_app_resurrected, custom_dispatch_poisons_vbc, dispatch_session_poisons_claim. ValidatorCache is never read, GlobalCtxCache is coherent by construction, VbCCache is coherent iff header height and store version of the writing context agree, claim validation without the session cache is cache-independent. The real application is tied to the model on every run: twin nodes replay generated cache-sensitive block histories; per block app hash, DeliverTx codes, validator updates, abstract state and raw store digests are compared; every custom application query's effect on the REAL ApplicationCache (LRU order, eviction) is compared with the model, and the coherence invariant is evaluated on the real cache.",
+    level_text="Kernel-checked for the code as it is now: the whole node — application cache (not keyed by height), validators-by-chain cache, session cache, with restarts and every LRU capacity — keeps the invariant `NodeInv` (application cache coherent with the working store; every validators-by-chain entry is the node list of the version its key names) under block execution, commits, restarts and EVERY kind of off-chain traffic (custom application queries at any height, RPC queries, CheckTx reads, dispatch requests through the RPC and through Query custom/pocketcore/dispatch at any height), and block execution therefore observes exactly what a node without any cache observes: node_inv, consensus_indep_offchain_all (and caches_coherent / consensus_indep_offchain for the application substore alone). ValidatorCache is never read, GlobalCtxCache is coherent by construction, claim validation never reads the session cache. The counterexamples for the code before the fixes are kept as historical_* theorems. The real application is tied to the model on every run: a probe decides which query context the code builds; twin nodes replay generated cache-sensitive block histories; per block app hash, DeliverTx codes, validator updates, abstract state and raw store digests are compared; every custom application query's effect on the REAL ApplicationCache (LRU order, eviction) is compared with the model, the coherence invariant is evaluated on the real cache after every call and every block, and the NewContext/SetPrevCtx call sites are pinned by regenerated facts.",
     level_note="Trusted: Lean kernel (axioms propext, Classical.choice, Quot.sound), harness/driver parser. Sessions, validators-by-chain lists and multistore versions are abstract values in the model; HandleRelay/HandleChallenge are not driven (they use the same session cache as HandleDispatch). Tendermint is not run: RPC-like traffic is issued on the app object between ABCI calls. Only the modern rule set.",
 )
 
